@@ -28,6 +28,7 @@ import PyTough.Proofs.GeoLayers
 import PyTough.Proofs.GeoRename
 import PyTough.Proofs.GeoRefineLayers
 import PyTough.Proofs.GeoSnap
+import PyTough.Proofs.GeoOrphans
 namespace Props.C10
 open Model.Geo Model.Geo.Geo Py Proofs.Geo
 
@@ -265,6 +266,11 @@ theorem snap_columns_to_nearest_layers_preserves_structure (g g' : Geo) (cols : 
     the neighbour sets exact, there is nothing left for it to add -/
 theorem identify_neighbours_identity (g : Geo) (h : g.geoInv0 = true) : g.identifyNeighbours = g :=
   identifyNeighbours_eq g h
+
+/-- `delete_orphans()`: every node with an empty column set is used by no column (that is the invariant), so they
+    are deleted one by one as in `delete_node`: the whole invariant is kept -/
+theorem delete_orphans_preserves (g g' : Geo) (hd : g.deleteOrphans = .ok g') (h : g.geoInv = true) :
+    g'.geoInv = true := deleteOrphans_geoInv g g' hd h
 
 /-! ### translating and rotating preserve the whole invariant -/
 
